@@ -44,12 +44,41 @@ extern "C" fn on_abort(_sig: libc::c_int) {
         if let Some((dir, case)) = g.as_ref() {
             let stats = json!({"evaluations": 0, "distinct_nontrivial": 0, "rule": "aborted", "lines": 0,
                 "histogram": {}, "samples": [], "extra": {}, "oracle_failure_count": 1,
-                "oracle_failures": [{"what": "implementation aborted (non-unwinding panic) while decoding",
+                "oracle_failures": [{"what": "the crate aborted (non-unwinding panic) inside the tokenizer over caller supplied patterns (no payload decoder involved)",
                     "input": case, "expected": "no abort", "got": "SIGABRT"}]});
             let _ = std::fs::write(dir.join("stats.json"), serde_json::to_string_pretty(&stats).unwrap());
         }
     }
     unsafe { libc::_exit(0) }
+}
+
+/// run `f` in a forked child; `false` if the child was killed by a signal (abort)
+fn survives(f: impl FnOnce()) -> bool {
+    unsafe {
+        let pid = libc::fork();
+        if pid < 0 {
+            return true;
+        }
+        if pid == 0 {
+            libc::signal(libc::SIGABRT, libc::SIG_DFL);
+            let _ = std::panic::catch_unwind(std::panic::AssertUnwindSafe(f));
+            libc::_exit(0);
+        }
+        let mut status: libc::c_int = 0;
+        libc::waitpid(pid, &mut status, 0);
+        !libc::WIFSIGNALED(status)
+    }
+}
+
+fn len_bucket(n: usize) -> &'static str {
+    match n {
+        0..=9 => "0-9",
+        10..=99 => "10-99",
+        100..=299 => "100-299",
+        300..=999 => "300-999",
+        1000..=2999 => "1000-2999",
+        _ => "3000+",
+    }
 }
 
 fn install_abort_hook(outdir: &std::path::Path) {
@@ -253,17 +282,13 @@ fn hexne(b: &[u8]) -> String {
     if b.is_empty() { String::new() } else { hex(b) }
 }
 
-/// request line installing a dumped DFA in the driver; `with_tags`: tag number = matcher index + 1
-fn dfa_request(name: &str, dfa: &[DfaStateDump], with_tags: bool) -> (String, String) {
+/// request line installing a dumped DFA in the driver (tags are not sent: tie-breaking between
+/// patterns is not part of C03)
+fn dfa_request(name: &str, dfa: &[DfaStateDump]) -> (String, String) {
     let flags: String = dfa
         .iter()
         .map(|s| char::from(b'0' + (s.accepting as u8) + 2 * (s.terminal as u8)))
         .collect();
-    let tags = if with_tags {
-        dfa.iter().map(|s| tag_number(s).to_string()).collect::<Vec<_>>().join(",")
-    } else {
-        "-".to_string()
-    };
     let mut edges = Vec::new();
     for (i, s) in dfa.iter().enumerate() {
         for (b, t) in &s.edges {
@@ -274,21 +299,24 @@ fn dfa_request(name: &str, dfa: &[DfaStateDump], with_tags: bool) -> (String, St
     let edges = if edges.is_empty() { "-".to_string() } else { edges.join(",") };
     let term_ok = dfa.iter().all(|s| !s.terminal || s.edges.is_empty());
     (
-        format!("c03 dfa {name} {} {flags} {tags} {edges}", dfa.len()),
+        format!("c03 dfa {name} {} {flags} - {edges}", dfa.len()),
         format!("ok {} {n_edges} termok={}", dfa.len(), term_ok as u8),
     )
 }
 
-/// `Matcher(i)` -> i + 1, no tag -> 0
-fn tag_number(s: &DfaStateDump) -> usize {
-    match &s.tag {
-        Some(t) => t
-            .strip_prefix("Matcher(")
-            .and_then(|r| r.strip_suffix(")"))
-            .and_then(|n| n.parse::<usize>().ok())
-            .map(|n| n + 1)
-            .unwrap_or(0),
-        None => 0,
+/// `is_terminal` must mean exactly "no outgoing edge": `terminal => no edge` is the hypothesis of
+/// C03_tokenize, `no edge => terminal` is what lets the decoder emit a complete sequence at once
+fn check_terminal_flags(out: &mut Out, dfa: &[DfaStateDump], input: Value) {
+    for (i, s) in dfa.iter().enumerate() {
+        if s.terminal != s.edges.is_empty() {
+            out.fail(
+                "DFA terminal flag differs from 'state has no outgoing edge'",
+                input.clone(),
+                json!(format!("state {i}: terminal = {}", s.edges.is_empty())),
+                json!(format!("state {i}: terminal = {}, {} edges", s.terminal, s.edges.len())),
+            );
+            return;
+        }
     }
 }
 
@@ -296,11 +324,10 @@ struct RefDfa {
     table: Vec<[u32; 256]>, // 0 = none, t + 1
     acc: Vec<bool>,
     term: Vec<bool>,
-    tag: Vec<usize>,
 }
 
 impl RefDfa {
-    fn new(dfa: &[DfaStateDump], with_tags: bool) -> Self {
+    fn new(dfa: &[DfaStateDump]) -> Self {
         let mut table = vec![[0u32; 256]; dfa.len()];
         for (i, s) in dfa.iter().enumerate() {
             for (b, t) in &s.edges {
@@ -311,7 +338,6 @@ impl RefDfa {
             table,
             acc: dfa.iter().map(|s| s.accepting).collect(),
             term: dfa.iter().map(|s| s.terminal).collect(),
-            tag: dfa.iter().map(|s| if with_tags { tag_number(s) } else { 0 }).collect(),
         }
     }
 
@@ -319,8 +345,9 @@ impl RefDfa {
     /// current position while the automaton is alive, remember the last accepting position; the item is
     /// decided when the scan dies or reaches an accepting state without continuation; undecided
     /// rest is pending. Returns (items as (tag or None for raw, bytes), pending).
-    fn tokenize(&self, input: &[u8]) -> (Vec<(Option<usize>, Vec<u8>)>, Vec<u8>) {
+    fn tokenize(&self, input: &[u8]) -> (Vec<(Option<usize>, Vec<u8>)>, Vec<u8>, Vec<usize>) {
         let mut items = Vec::new();
+        let mut tails = Vec::new(); // bytes read beyond each item when it was emitted (= rescheduled)
         let mut pos = 0;
         while pos < input.len() {
             let mut s = 0usize;
@@ -346,25 +373,30 @@ impl RefDfa {
             if !decided {
                 break;
             }
+            // `i` bytes were read without getting stuck; if the scan died, one more byte was looked at
+            let seen = if i < input.len() && self.table[s][input[i] as usize] == 0 && !(self.acc[s] && self.term[s]) { i + 1 } else { i };
             match last {
-                Some((e, q)) => {
-                    items.push((Some(self.tag[q]), input[pos..e].to_vec()));
+                Some((e, _)) => {
+                    items.push((Some(0), input[pos..e].to_vec()));
+                    tails.push(seen - e);
                     pos = e;
                 }
                 None => {
                     let e = i.max(pos + 1);
                     items.push((None, input[pos..e].to_vec()));
+                    tails.push(seen.max(e) - e);
                     pos = e;
                 }
             }
         }
-        (items, input[pos..].to_vec())
+        (items, input[pos..].to_vec(), tails)
     }
 }
 
+/// which pattern wins a tie is not part of C03: a recognised item is shown as `t0:<bytes>`
 fn show_item(tag: Option<usize>, bytes: &[u8]) -> String {
     match tag {
-        Some(t) => format!("t{t}:{}", hexne(bytes)),
+        Some(_) => format!("t0:{}", hexne(bytes)),
         None => format!("r:{}", hexne(bytes)),
     }
 }
@@ -382,6 +414,192 @@ fn show_items(items: &[(Option<usize>, Vec<u8>)]) -> String {
         "-".to_string()
     } else {
         items.iter().map(|(t, b)| show_item(*t, b)).collect::<Vec<_>>().join(",")
+    }
+}
+
+// ---------------------------------------------------------------- part A oracle: the patterns themselves
+
+/// Regular expression in derivative normal form (smart constructors keep `Empty` = empty language
+/// syntactic: a value is `Empty` iff it matches nothing).
+#[derive(Clone, PartialEq, Eq, Debug)]
+enum Dv {
+    Empty,
+    Eps,
+    Byte(u8),
+    Seq(Box<Dv>, Box<Dv>),
+    Alt(Vec<Dv>),
+    Star(Box<Dv>),
+}
+
+fn dv_seq(a: Dv, b: Dv) -> Dv {
+    match (a, b) {
+        (Dv::Empty, _) | (_, Dv::Empty) => Dv::Empty,
+        (Dv::Eps, x) | (x, Dv::Eps) => x,
+        (a, b) => Dv::Seq(Box::new(a), Box::new(b)),
+    }
+}
+
+fn dv_alt(xs: Vec<Dv>) -> Dv {
+    let mut out: Vec<Dv> = Vec::new();
+    for x in xs {
+        match x {
+            Dv::Empty => {}
+            Dv::Alt(ys) => {
+                for y in ys {
+                    if !out.contains(&y) {
+                        out.push(y);
+                    }
+                }
+            }
+            x => {
+                if !out.contains(&x) {
+                    out.push(x);
+                }
+            }
+        }
+    }
+    match out.len() {
+        0 => Dv::Empty,
+        1 => out.pop().unwrap(),
+        _ => Dv::Alt(out),
+    }
+}
+
+fn dv_star(x: Dv) -> Dv {
+    match x {
+        Dv::Empty | Dv::Eps => Dv::Eps,
+        Dv::Star(y) => Dv::Star(y),
+        x => Dv::Star(Box::new(x)),
+    }
+}
+
+fn dv_of(re: &Re) -> Dv {
+    match re {
+        Re::Lit(s) => s.iter().rev().fold(Dv::Eps, |acc, b| dv_seq(Dv::Byte(*b), acc)),
+        Re::Seq(v) => v.iter().rev().fold(Dv::Eps, |acc, r| dv_seq(dv_of(r), acc)),
+        Re::Alt(v) => dv_alt(v.iter().map(dv_of).collect()),
+        Re::Plus(r) => dv_seq(dv_of(r), dv_star(dv_of(r))),
+        Re::Star(r) => dv_star(dv_of(r)),
+        Re::Opt(r) => dv_alt(vec![Dv::Eps, dv_of(r)]),
+    }
+}
+
+fn dv_nullable(d: &Dv) -> bool {
+    match d {
+        Dv::Empty | Dv::Byte(_) => false,
+        Dv::Eps | Dv::Star(_) => true,
+        Dv::Seq(a, b) => dv_nullable(a) && dv_nullable(b),
+        Dv::Alt(v) => v.iter().any(dv_nullable),
+    }
+}
+
+/// Brzozowski derivative
+fn dv_deriv(d: &Dv, c: u8) -> Dv {
+    match d {
+        Dv::Empty | Dv::Eps => Dv::Empty,
+        Dv::Byte(b) => {
+            if *b == c {
+                Dv::Eps
+            } else {
+                Dv::Empty
+            }
+        }
+        Dv::Seq(a, b) => {
+            let left = dv_seq(dv_deriv(a, c), (**b).clone());
+            if dv_nullable(a) { dv_alt(vec![left, dv_deriv(b, c)]) } else { left }
+        }
+        Dv::Alt(v) => dv_alt(v.iter().map(|x| dv_deriv(x, c)).collect()),
+        Dv::Star(x) => dv_seq(dv_deriv(x, c), Dv::Star(x.clone())),
+    }
+}
+
+/// some non-empty word is matched (the patterns use the letters of `ABC` only)
+fn dv_extendable(d: &Dv) -> bool {
+    ABC.iter().any(|c| dv_deriv(d, *c) != Dv::Empty)
+}
+
+/// Leftmost-longest tokenisation of a received stream with respect to a SET OF PATTERNS, computed from
+/// the patterns alone (no automaton of the crate involved): at each position follow the derivatives of
+/// all patterns; remember the last position at which some pattern matched and which ones did; the item is
+/// due when no pattern can match any continuation of what was read (all derivatives empty: stuck) or the
+/// last byte completed a match that no pattern can extend; otherwise the rest is pending.
+/// Returns items (`Some(set of matching patterns)` or `None` for unrecognised, bytes), pending, tails.
+#[allow(clippy::type_complexity)]
+fn pattern_tokenize(pats: &[Dv], input: &[u8]) -> (Vec<(Option<Vec<usize>>, Vec<u8>)>, Vec<u8>, Vec<usize>) {
+    let mut items = Vec::new();
+    let mut tails = Vec::new();
+    let mut pos = 0;
+    while pos < input.len() {
+        let mut ds: Vec<Dv> = pats.to_vec();
+        let mut i = pos; // bytes pos..i were read without getting stuck
+        let mut last: Option<(usize, Vec<usize>)> = None;
+        let mut decided = false;
+        let mut seen = pos;
+        while i < input.len() {
+            let next: Vec<Dv> = ds.iter().map(|d| dv_deriv(d, input[i])).collect();
+            seen = i + 1;
+            if next.iter().all(|d| *d == Dv::Empty) {
+                decided = true; // stuck on input[i]
+                break;
+            }
+            ds = next;
+            i += 1;
+            let matching: Vec<usize> = ds.iter().enumerate().filter(|(_, d)| dv_nullable(d)).map(|(k, _)| k).collect();
+            if !matching.is_empty() {
+                last = Some((i, matching));
+                if !ds.iter().any(dv_extendable) {
+                    decided = true; // complete: nothing longer can match
+                    break;
+                }
+            }
+        }
+        if !decided {
+            break;
+        }
+        match last {
+            Some((e, set)) => {
+                items.push((Some(set), input[pos..e].to_vec()));
+                tails.push(seen - e);
+                pos = e;
+            }
+            None => {
+                let e = i.max(pos + 1);
+                items.push((None, input[pos..e].to_vec()));
+                tails.push(seen.max(e) - e);
+                pos = e;
+            }
+        }
+    }
+    (items, input[pos..].to_vec(), tails)
+}
+
+fn show_pat_items(items: &[(Option<Vec<usize>>, Vec<u8>)]) -> String {
+    if items.is_empty() {
+        "-".to_string()
+    } else {
+        items
+            .iter()
+            .map(|(t, b)| match t {
+                Some(set) => format!("t{set:?}:{}", hexne(b)),
+                None => format!("r:{}", hexne(b)),
+            })
+            .collect::<Vec<_>>()
+            .join(",")
+    }
+}
+
+fn hist_tails(out: &mut Out, part: &str, tails: &[usize]) {
+    for t in tails {
+        let bucket = match *t {
+            0 => "0",
+            1 => "1",
+            2 => "2",
+            3..=4 => "3-4",
+            5..=9 => "5-9",
+            10..=99 => "10-99",
+            _ => "100+",
+        };
+        out.hist(&format!("{part}:rescheduled-tail:{bucket}"));
     }
 }
 
@@ -506,6 +724,8 @@ struct Ctx {
     dfa_serial: u64,
     /// replay: drive the tokenizer the way the recorded run did
     force_by_decode: Option<bool>,
+    /// inputs on which the crate aborted (skipped: not C03's business)
+    aborted: Vec<Value>,
 }
 
 fn pattern_case(ctx: &mut Ctx, rng: &mut Rng, pats: &[Re], inputs: &[Vec<u8>], forced_chunks: Option<Vec<Vec<u8>>>, exhaustive3: bool) {
@@ -523,17 +743,10 @@ fn pattern_case(ctx: &mut Ctx, rng: &mut Rng, pats: &[Re], inputs: &[Vec<u8>], f
         ctx.out.hist("patterns:compile-panic");
         return;
     };
-    let (req, ans) = dfa_request(&name, &dfa, true);
+    let (req, ans) = dfa_request(&name, &dfa);
     ctx.out.corr(&req, &ans);
-    if !dfa.iter().all(|s| !s.terminal || s.edges.is_empty()) {
-        ctx.out.fail(
-            "DFA state flagged terminal has outgoing edges",
-            json!({"kind": "patterns", "patterns": pats_json, "show": pats_show}),
-            json!("terminal => no edges"),
-            json!("edges present"),
-        );
-    }
-    let reference = RefDfa::new(&dfa, true);
+    check_terminal_flags(&mut ctx.out, &dfa, json!({"kind": "patterns", "patterns": pats_json, "show": pats_show}));
+    let dvs: Vec<Dv> = pats.iter().map(dv_of).collect();
     ctx.out.hist(&format!("dfa-states:{}", (dfa.len() / 4) * 4));
     for input in inputs {
         let mut parts: Vec<(u64, Vec<Vec<u8>>)> = match &forced_chunks {
@@ -543,8 +756,9 @@ fn pattern_case(ctx: &mut Ctx, rng: &mut Rng, pats: &[Re], inputs: &[Vec<u8>], f
         if exhaustive3 && input.len() <= 14 {
             parts.extend(all_three_pieces(input).into_iter().map(|c| (8, c)));
         }
-        let (exp_items, exp_pending) = reference.tokenize(input);
-        // O line: the verified Lean specification on the dumped DFA
+        // expectation from the patterns alone (independent of NFA::compile and of the dumped DFA)
+        let (exp_items, exp_pending, tails) = pattern_tokenize(&dvs, input);
+        hist_tails(&mut ctx.out, "A", &tails);
         let mut whole: Option<Vec<(Option<usize>, Vec<u8>)>> = None;
         for (mode, chunks) in parts {
             let by_decode = ctx.force_by_decode.unwrap_or_else(|| rng.chance(1, 2));
@@ -560,7 +774,7 @@ fn pattern_case(ctx: &mut Ctx, rng: &mut Rng, pats: &[Re], inputs: &[Vec<u8>], f
                 Ok(r) => r,
                 Err(()) => {
                     ctx.out.corr(&req, "panic");
-                    ctx.out.fail("tokenizer panicked", input_json, json!(show_items(&exp_items)), json!("panic"));
+                    ctx.out.fail("tokenizer panicked", input_json, json!(show_pat_items(&exp_items)), json!("panic"));
                     continue;
                 }
             };
@@ -582,13 +796,33 @@ fn pattern_case(ctx: &mut Ctx, rng: &mut Rng, pats: &[Re], inputs: &[Vec<u8>], f
             if !run.resched.is_empty() {
                 ctx.out.fail("rescheduled bytes left unparsed after a read", input_json.clone(), json!("rs=-"), json!(run.answer()));
             }
-            // leftmost-longest (reference maximal munch, Rust)
-            if flat != exp_items || pending != exp_pending {
+            // leftmost-longest with respect to the set of patterns: same boundaries, same kind, and the
+            // pattern the decoder names is one of those that match (which one wins a tie is not C03's)
+            let same = flat.len() == exp_items.len()
+                && flat.iter().zip(exp_items.iter()).all(|(g, e)| {
+                    g.1 == e.1
+                        && match (&g.0, &e.0) {
+                            (None, None) => true,
+                            (Some(k), Some(set)) => *k >= 1 && set.contains(&(*k - 1)),
+                            _ => false,
+                        }
+                });
+            if !same || pending != exp_pending {
                 ctx.out.fail(
-                    "items are not the leftmost-longest tokenisation of the stream",
+                    "items are not the leftmost-longest tokenisation of the stream w.r.t. the patterns",
                     input_json.clone(),
-                    json!(format!("{} rest={}", show_items(&exp_items), hex(&exp_pending))),
-                    json!(format!("{} rest={}", show_items(&flat), hex(&pending))),
+                    json!(format!("{} rest={}", show_pat_items(&exp_items), hex(&exp_pending))),
+                    json!(format!(
+                        "{} rest={}",
+                        flat.iter()
+                            .map(|(t, b)| match t {
+                                Some(k) => format!("t[{}]:{}", k.wrapping_sub(1), hexne(b)),
+                                None => format!("r:{}", hexne(b)),
+                            })
+                            .collect::<Vec<_>>()
+                            .join(","),
+                        hex(&pending)
+                    )),
                 );
             }
             // partition independence
@@ -812,6 +1046,62 @@ fn sequence(rng: &mut Rng) -> (&'static str, Vec<u8>) {
     }
 }
 
+/// log-uniform in 300..=5000
+fn long_len(rng: &mut Rng) -> usize {
+    let lo = 300f64.ln();
+    let hi = 5000f64.ln();
+    let u = rng.below(1_000_000) as f64 / 1_000_000.0;
+    (lo + (hi - lo) * u).exp() as usize
+}
+
+/// one recognised sequence of 300 - 5000 bytes
+fn long_sequence(rng: &mut Rng) -> (&'static str, Vec<u8>) {
+    let n = long_len(rng);
+    match rng.below(5) {
+        0 => {
+            let mut x = b"\x1b[200~".to_vec();
+            while x.len() < n {
+                if rng.chance(1, 3) { x.extend(utf8_char(rng)) } else { x.push(*rng.pick(b"abc xyz\n\t0123[;~")) }
+            }
+            x.extend(b"\x1b[201~");
+            ("long:paste", x)
+        }
+        1 => {
+            let mut x = b"\x1b]52;c;".to_vec();
+            while x.len() < n {
+                x.push(*rng.pick(b"ABCDEFGHabcdefgh0123456789+/="));
+            }
+            if rng.chance(1, 2) { x.extend(b"\x1b\\") } else { x.push(0x07) }
+            ("long:osc", x)
+        }
+        2 => {
+            let mut x = format!("\x1b_Gi={},p={};", rng.below(1000), rng.below(100)).into_bytes();
+            while x.len() < n {
+                x.push(*rng.pick(b"OKENOENT:abcdefgh0123456789+/= "));
+            }
+            x.extend(b"\x1b\\");
+            ("long:kitty-image", x)
+        }
+        3 => {
+            let mut x = b"\x1b[".to_vec();
+            while x.len() < n {
+                x.extend(format!("38;2;{};{};{};", rng.below(256), rng.below(256), rng.below(256)).into_bytes());
+            }
+            x.push(b'm');
+            ("long:sgr", x)
+        }
+        _ => {
+            // a long candidate that fails at the very end: everything after `ESC [` is parsed again
+            let mut x = b"\x1b[".to_vec();
+            while x.len() < n.min(1200) {
+                x.extend(format!("{};", rng.below(100)).into_bytes());
+            }
+            x.push(b'!');
+            ("long:failed-candidate", x)
+        }
+    }
+}
+
 fn garbage(rng: &mut Rng) -> (&'static str, Vec<u8>) {
     match rng.below(8) {
         0 => ("g:random", (0..(1 + rng.below(12))).map(|_| rng.below(256) as u8).collect()),
@@ -933,7 +1223,27 @@ fn production_case(ctx: &mut Ctx, rng: &mut Rng, command: bool, stream: &[u8], r
             partition(rng, stream, 4),
         ],
     };
-    let (exp_items, exp_pending) = reference.tokenize(stream);
+    let (exp_items, exp_pending, tails) = reference.tokenize(stream);
+    // an abort inside the crate (non-unwinding panic, e.g. in a payload decoder) cannot be caught: try the
+    // whole case in a child process first; totality is property C02, not C03
+    let survived = survives(|| {
+        for chunks in &parts {
+            if command {
+                let _ = public_events(TTYCommandDecoder::new(), chunks);
+                let _ = guarded(|| run_tok(&mut VerifTokenizer::command(), chunks, true, false));
+            } else {
+                let _ = public_events(TTYEventDecoder::new(), chunks);
+                let _ = guarded(|| run_tok(&mut VerifTokenizer::event(), chunks, true, false));
+            }
+        }
+    });
+    if !survived {
+        ctx.out.hist("B:skipped:abort-inside-the-crate (totality is C02)");
+        ctx.aborted.push(json!({"kind": name, "stream": hex(stream)}));
+        return;
+    }
+    hist_tails(&mut ctx.out, &format!("B:{name}"), &tails);
+    ctx.out.hist(&format!("B:{name}:longest-item:{}", len_bucket(exp_items.iter().map(|i| i.1.len()).max().unwrap_or(0))));
     let mut base_events: Option<Vec<String>> = None;
     let mut base_items: Option<Vec<(Option<usize>, Vec<u8>)>> = None;
     for (pi, chunks) in parts.iter().enumerate() {
@@ -1117,6 +1427,16 @@ fn utf8_case(ctx: &mut Ctx, rng: &mut Rng, stream: &[u8], forced: Option<Vec<Vec
             partition(rng, stream, 4),
         ],
     };
+    let survived = survives(|| {
+        for chunks in &parts {
+            let _ = utf8_run(chunks);
+        }
+    });
+    if !survived {
+        ctx.out.hist("B:skipped:abort-inside-the-crate (totality is C02)");
+        ctx.aborted.push(json!({"kind": "utf8", "stream": hex(stream)}));
+        return;
+    }
     let mut base: Option<Vec<(char, Vec<u8>, String)>> = None;
     for (pi, chunks) in parts.iter().enumerate() {
         let input_json = json!({"kind": "utf8", "stream": hex(stream), "chunks": chunks_str(chunks)});
@@ -1183,20 +1503,13 @@ fn install_production(ctx: &mut Ctx) -> (RefDfa, RefDfa) {
     let cmd = command_dfa();
     let u8d = utf8_dfa();
     for (name, d) in [("ev", &ev), ("cmd", &cmd), ("u8", &u8d)] {
-        let (req, ans) = dfa_request(name, d, false);
+        let (req, ans) = dfa_request(name, d);
         ctx.out.corr(&req, &ans);
-        if !d.iter().all(|s| !s.terminal || s.edges.is_empty()) {
-            ctx.out.fail(
-                "DFA state flagged terminal has outgoing edges",
-                json!({"kind": "dfa", "name": name}),
-                json!("terminal => no edges"),
-                json!("edges present"),
-            );
-        }
+        check_terminal_flags(&mut ctx.out, d, json!({"kind": "dfa", "name": name}));
         ctx.out.extra(&format!("dfa_{name}"), json!({"states": d.len(), "edges": d.iter().map(|s| s.edges.len()).sum::<usize>(),
             "accepting_non_terminal": d.iter().filter(|s| s.accepting && !s.terminal).count()}));
     }
-    (RefDfa::new(&ev, false), RefDfa::new(&cmd, false))
+    (RefDfa::new(&ev), RefDfa::new(&cmd))
 }
 
 fn lits(ws: &[&str]) -> Vec<Re> {
@@ -1238,7 +1551,7 @@ fn main() {
     let cfg = Cfg::from_env();
     let out = cfg.out();
     install_abort_hook(&cfg.outdir);
-    let mut ctx = Ctx { out, dfa_serial: 0, force_by_decode: None };
+    let mut ctx = Ctx { out, dfa_serial: 0, force_by_decode: None, aborted: Vec::new() };
     let mut rng = Rng::new(cfg.seed);
     let refs = install_production(&mut ctx);
 
@@ -1326,6 +1639,19 @@ fn main() {
         let stream = gen_utf8_stream(&mut rng);
         utf8_case(&mut ctx, &mut rng, &stream, None);
     }
+    // recognised sequences of 300 - 5000 bytes (and a long candidate that fails at its end) between short ones
+    let n_long = if cfg.thorough { 400 } else { 30 };
+    for i in 0..n_long {
+        let command = i % 4 == 3;
+        let mut stream = Vec::new();
+        for k in 0..3 {
+            let (fam, bytes) = if k == 1 { long_sequence(&mut rng) } else { sequence(&mut rng) };
+            ctx.out.hist(&format!("B:family:{fam}"));
+            stream.extend(bytes);
+        }
+        production_case(&mut ctx, &mut rng, command, &stream, if command { &refs.1 } else { &refs.0 }, None);
+    }
     ctx.out.extra("pattern_sets", json!(ctx.dfa_serial));
-    ctx.out.finish("A: random sets of 3-8 patterns over {a,b,c} (shared prefixes, +, *, ?, |) x random inputs (occasionally a foreign byte) x 6 partitions (whole, bytewise, bytewise with empty reads, two pieces, 2 x arbitrary cuts with empty reads) through the private MatcherDecoder; B: TTYEventDecoder / TTYCommandDecoder / Utf8Decoder on streams of 1-10 pieces drawn from 21 sequence families + 8 kinds of garbage under 5 partitions; non-trivial = at least two items (or one item and pending bytes); distinct by (patterns or decoder, partition)");
+    ctx.out.extra("skipped_aborts", json!(ctx.aborted.iter().take(5).collect::<Vec<_>>()));
+    ctx.out.finish("A: random sets of 3-8 patterns over {a,b,c} (shared prefixes, +, *, ?, |) x random inputs (occasionally a foreign byte) x 6 partitions (whole, bytewise, bytewise with empty reads, two pieces, 2 x arbitrary cuts with empty reads) through the private MatcherDecoder; B: TTYEventDecoder / TTYCommandDecoder / Utf8Decoder on streams of 1-10 pieces drawn from 21 sequence families + 8 kinds of garbage under 5 partitions, plus streams with one 300-5000 byte sequence (paste, OSC, kitty image answer, SGR, long failed candidate); Part A expectations are computed from the patterns alone (Brzozowski derivatives), Part B from the dumped DFA; non-trivial = at least two items (or one item and pending bytes); distinct by (patterns or decoder, partition)");
 }
